@@ -676,7 +676,7 @@ func c11History(c *ctx, seed uint64, steps int) map[string]int {
 }
 
 func runC11(c *ctx) {
-	c.Rule = "random API histories of 200 steps over a growing pool (<= 64 objects: items, data messages, control messages; items shared between lists and messages). Steps: every factory, FillVariables, SetWaitBit, SetSessionIDAndSystemBytes, all observers, hsms.Parse of a pooled message's bytes, sml.Parse of its printed form. After each step the harness overwrites every slice and map it passed in (factory argument slices, system bytes, control headers, fill maps, decoder input incl. spare capacity) and every slice it got back (ToBytes, Variables, SystemBytes), then re-reads every pooled object and compares it with its snapshot at creation (String, ToBytes, Variables, Size, all header accessors, Type). non-trivial = a step that scribbled over a non-empty argument or result; distinct by (operation, target, pool size, step) Also (rounds 4-8): raw control headers with any PType/SType; fill results first read after the caller's map was overwritten and compared with the same fill from an untouched copy; a sibling with other values derived and encoded before a fill result is read, and the result compared with the message built by the item route; fresh frames with long items decoded; a fresh list of 200-2200 items read by eight goroutines at once."
+	c.Rule = "random API histories of 200 steps over a growing pool (<= 64 objects: items, data messages, control messages; items shared between lists and messages). Steps: every factory, FillVariables, SetWaitBit, SetSessionIDAndSystemBytes, all observers, hsms.Parse of a pooled message's bytes, sml.Parse of its printed form. After each step the harness overwrites every slice and map it passed in (factory argument slices, system bytes, control headers, fill maps, decoder input incl. spare capacity) and every slice it got back (ToBytes, Variables, SystemBytes), then re-reads every pooled object and compares it with its snapshot at creation (String, ToBytes, Variables, Size, all header accessors, Type). non-trivial = a step that scribbled over a non-empty argument or result; distinct by (operation, target, pool size, step) Also (rounds 4-8): raw control headers with any PType/SType; fill results first read after the caller's map was overwritten and compared with the same fill from an untouched copy; a sibling with other values derived and encoded before a fill result is read, and the result compared with the message built by the item route; fresh frames with long items decoded; a fresh list of 200-2200 items read by eight goroutines at once. Also (round 9): one stamp in three re-stamps with the system bytes (and session id) the message already carries, in the caller's buffer."
 	c.Assume = []string{"the observable state of an object is what its public observers return"}
 	nh := c.pick(1500, 40000)
 	c.parallel(nh, func(i int, r *rng.R) {
